@@ -218,6 +218,7 @@ def main(registry):
     a = ap.parse_args()
     if a.tier not in ('quick', 'thorough'):
         a.tier = 'quick'
+    os.environ['VERIF_RUN_ID'] = '%s.%d' % (a.pid, os.getpid())
     try:
         if a.replay:
             return replay(a.pid, a.replay)
@@ -232,6 +233,9 @@ def main(registry):
         traceback.print_exc()
         print(f'MACHINERY-FAILURE {a.pid}: unexpected exception in the harness', file=sys.stderr)
         return 2
+    finally:
+        import shutil
+        shutil.rmtree(os.path.join(tlc.WORK, 'scratch.' + os.environ['VERIF_RUN_ID']), ignore_errors=True)
 
 
 def replay(pid, path):
